@@ -18,6 +18,8 @@ Templates ==
     Act("SELL", "BAR", "USD", <<-2, 0>>, <<25, 0>>, <<0, 0>>, <<50, 0>>, "Margin", "111"),
     Act("DIS", "BAR", "USD", <<1, 0>>, <<0, 0>>, <<0, 0>>, <<0, 0>>, "Margin", "111"),
     Act("LIQ", "BAR", "USD", <<-1, 0>>, <<7, 0>>, <<0, 0>>, <<7, 0>>, "Margin", "111"),
+    \* worthless shares liquidated for a fee: no proceeds, but USD cash moves
+    Act("LIQ", "BAR", "USD", <<-2, 0>>, <<0, 0>>, <<-25, 1>>, <<-25, 1>>, "Margin", "111"),
     Act("DIV", "BAR", "USD", <<0, 0>>, <<0, 0>>, <<0, 0>>, <<315, 2>>, "Margin", "111"),
     Act("FXT", "", "CAD", <<0, 0>>, <<0, 0>>, <<0, 0>>, <<-130, 0>>, "Margin", "111"),
     Act("FXT", "", "USD", <<0, 0>>, <<0, 0>>, <<0, 0>>, <<100, 0>>, "Margin", "111"),
